@@ -37,6 +37,7 @@ type c33Cfg struct {
 	PoolL   int    `json:"pool_bucket_len"`
 	Packets int    `json:"packet_set"` // which packet alphabet (0 full, 1 reduced for the small pool)
 	Senders int    `json:"senders"`    // number of peers that hand packets in (3, or 2 for the small pool run)
+	Self    int    `json:"self_role"`  // role of the node itself (must not matter)
 }
 
 func (c c33Cfg) String() string {
@@ -49,7 +50,7 @@ func (c c33Cfg) String() string {
 	if c.PoolB != 0 {
 		pool = fmt.Sprintf("pool=%dx%d", c.PoolB, c.PoolL)
 	}
-	return strings.Join(s, " ") + " " + pool
+	return strings.Join(s, " ") + " self=" + rn[c.Self] + " " + pool
 }
 
 func c33ConnName(c int) string {
@@ -154,6 +155,7 @@ var c33Log = func() log.Logger {
 func c33NewSys(cfg c33Cfg, ids c33IDs) *c33Sys {
 	s := &c33Sys{}
 	self := &Peer{id: ids.self}
+	self.setRole(PeerRoleFlag(cfg.Self))
 	nb, bl := uint8(DefaultPacketPoolNumBucket), uint16(DefaultPacketPoolBucketLen)
 	if cfg.PoolB != 0 {
 		nb, bl = uint8(cfg.PoolB), uint16(cfg.PoolL)
@@ -595,7 +597,7 @@ func TestVerifC33(t *testing.T) {
 	deepDepth := r.Pick(4, 5)
 	smallDepth := r.Pick(6, 8)
 	allCfgDepth := r.Pick(1, 2)
-	r.Rule(fmt.Sprintf("node S with connected peers P1..P3 (role in {none,seed,root,root+seed}, connection type in {none,parent,friend,other}); packets: src in {P1,P2,X(not connected),S} x dest in {any,root,seed,peer} x ttl in {0,1,2} x 2 payloads (96); event = peer Pi hands packet k to onPacket (288). (1) all 4096 role/connection-type configurations: BFS to depth %d; (2) %d representative configurations: BFS to depth %d with the production pool (20x500); (3) pool 2x2 and 3x2 with 8 flooded + 2 one-hop packets and 2 senders: BFS to depth %d (evictions and re-delivery after eviction are reached). States are identified by the canonical content of the real PacketPool (+ the model's retention bookkeeping) and re-created by replaying the shortest history on fresh real objects; every transition is checked. A transition is non-trivial if the sender has a determined connection type; distinct = (sender role, sender connection type, sender, packet, model verdict reason, pool geometry).", allCfgDepth, len(c33DeepConfigs(r.Thorough())), deepDepth, smallDepth))
+	r.Rule(fmt.Sprintf("node S with connected peers P1..P3 (role in {none,seed,root,root+seed}, connection type in {none,parent,friend,other}); packets: src in {P1,P2,X(not connected),S} x dest in {any,root,seed,peer} x ttl in {0,1,2} x 2 payloads (96); event = peer Pi hands packet k to onPacket (288). (1) all 4096 role/connection-type configurations x roles of S itself (quick: none, root; thorough: all 4): BFS to depth 1, and to depth %d with S=none; (2) %d representative configurations: BFS to depth %d (thorough: the first two to depth 6) with the production pool (20x500); (3) pool 2x2 and 3x2 with 8 flooded + 2 one-hop packets and 2 senders: BFS to depth %d (evictions and re-delivery after eviction are reached). States are identified by the canonical content of the real PacketPool (+ the model's retention bookkeeping) and re-created by replaying the shortest history on fresh real objects; every transition is checked. A transition is non-trivial if the sender has a determined connection type; distinct = (sender role, sender connection type, sender, packet, model verdict reason, pool geometry).", allCfgDepth, len(c33DeepConfigs(r.Thorough())), deepDepth, smallDepth))
 	r.Assume("a packet's identity for the model is (src,dest,ttl,payload); the implementation's identity is its FNV hash — distinctness of the hashes of the 96 packets is asserted",
 		"pool retention guaranteed by the geometry: a delivered flooded packet is remembered at least until (buckets-1)*bucketLen newer ones were delivered; beyond that re-delivery is allowed",
 		"relayed flooded packets (sender != src) carry no verifiable origin; as in the property statement only originator broadcasts are subject to the role check",
@@ -619,9 +621,20 @@ func TestVerifC33(t *testing.T) {
 		if r.Expired() {
 			return
 		}
-		x := c33NewExplorer(r, cfgs[i])
-		x.bfsSeq(allCfgDepth)
-		x.flush(tot)
+		for self := 0; self < 4; self++ {
+			if r.Quick() && self%2 == 1 {
+				continue // quick: S in {none, root}
+			}
+			cfg := cfgs[i]
+			cfg.Self = self
+			x := c33NewExplorer(r, cfg)
+			if self == 0 {
+				x.bfsSeq(allCfgDepth)
+			} else {
+				x.bfsSeq(1)
+			}
+			x.flush(tot)
+		}
 		atomic.AddInt64(&fix1, 1)
 	})
 	if int(fix1) != len(cfgs) {
@@ -632,13 +645,17 @@ func TestVerifC33(t *testing.T) {
 	// (2) representative configurations, deep, production pool
 	deep := c33DeepConfigs(r.Thorough())
 	deepDone := 0
-	for _, cfg := range deep {
+	for ci, cfg := range deep {
 		if r.Expired() {
 			exhaustive = false
 			break
 		}
 		x := c33NewExplorer(r, cfg)
-		x.bfs(deepDepth)
+		d := deepDepth
+		if r.Thorough() && ci < 2 {
+			d++ // the first two configurations one level deeper
+		}
+		x.bfs(d)
 		if r.Expired() {
 			exhaustive = false
 		} else {
@@ -713,9 +730,9 @@ func c33DeepConfigs(thorough bool) []c33Cfg {
 	N, P, F, O := int(p2pConnTypeNone), int(p2pConnTypeParent), int(p2pConnTypeFriend), int(p2pConnTypeOther)
 	cs := []c33Cfg{
 		{Roles: [3]int{2, 1, 0}, Conns: [3]int{F, P, O}}, // root friend, seed parent, citizen
-		{Roles: [3]int{0, 2, 2}, Conns: [3]int{O, F, N}}, // originator without role; a root whose connection is undetermined
+		{Roles: [3]int{0, 2, 2}, Conns: [3]int{O, F, N}, Self: 2}, // originator without role; a root whose connection is undetermined; S itself is a root
 		{Roles: [3]int{1, 0, 2}, Conns: [3]int{F, P, O}},
-		{Roles: [3]int{2, 2, 1}, Conns: [3]int{N, O, F}},
+		{Roles: [3]int{2, 2, 1}, Conns: [3]int{N, O, F}, Self: 1},
 	}
 	if thorough {
 		cs = append(cs,
